@@ -300,6 +300,50 @@ fn static_chains(st: &mut Stats, sink: &Sink) {
     chain!("NoiseEliminationTechnology(MyRSI(Echo,3),3)", NoiseEliminationTechnology::new(MyRSI::new(e(), 3), 3), MyRSI::new(e(), 3), NoiseEliminationTechnology::new(e(), 3));
 }
 
+/// every unary wrapper directly over each of ten inner views, statically typed
+fn static_grid(ok: Kind, st: &mut Stats, sink: &Sink) {
+    use crate::static_zoo as z;
+    let mut drivers: Vec<Vec<f64>> = crate::explore::sequences(&Z3, 6);
+    for cyc in crate::explore::cycles(&[0.1, 0.7, -3.3], 3) {
+        drivers.push((0..40).map(|i| cyc[i % cyc.len()]).collect());
+    }
+    for ik in z::INNER_KINDS {
+        for (no, ni) in [(2usize, 3usize), (3, 2), (5, 7)] {
+            let label = mk(ok, no, mk(ik, ni, Spec::echo()));
+            if guard(|| (z::chain(ok, no, ik, ni).is_some(), z::single(ik, ni).is_some(), z::single(ok, no).is_some())).map(|t| !(t.0 && t.1 && t.2)).unwrap_or(true) {
+                st.skipped_configs += 1;
+                continue;
+            }
+            st.configs += 1;
+            'drv: for h in &drivers {
+                let (mut chain, mut a, mut b) = (z::chain(ok, no, ik, ni).unwrap(), z::single(ik, ni).unwrap(), z::single(ok, no).unwrap());
+                for (i, x) in h.iter().enumerate() {
+                    let r = guard(|| {
+                        chain.upd(*x);
+                        a.upd(*x);
+                        if let Some(y) = a.get() {
+                            b.upd(y);
+                        }
+                        (chain.get(), b.get())
+                    });
+                    st.transitions += 3;
+                    st.oracle_evals += 1;
+                    match r {
+                        Ok((c, d)) => {
+                            if !opt_same::<f64>(c, d) {
+                                sink.push(Violation::new("C01", &label, "chain-vs-decomposition", "f64", &h[..=i], format!("statically typed chain: the chain reports {} but its stand-alone parts report {}", opt_key(c), opt_key(d))).tag("static"));
+                                break 'drv;
+                            }
+                        }
+                        Err(_) => continue 'drv,
+                    }
+                }
+                st.traces += 1;
+            }
+        }
+    }
+}
+
 pub fn run(ctx: &Ctx) -> CheckOutput {
     let quick = ctx.tier == Tier::Quick;
     let (outer_ns, inner_ns, depth): (Vec<usize>, Vec<usize>, usize) = if quick { (vec![1, 2, 3, 4], vec![1, 2, 3], 7) } else { (vec![1, 2, 3, 4, 5, 6], vec![1, 2, 3, 4], 9) };
@@ -374,6 +418,14 @@ pub fn run(ctx: &Ctx) -> CheckOutput {
         static_chains(&mut st, &sink);
         JobOut { stats: st, viols: sink.take(), samples: vec![json!({"explorer":"TREE+LONG","clause":"14 statically typed chains (no type erasure)","drivers":"Z3^7 and every cycle over {0.1,0.7,-3.3} of period<=3"})] }
     }));
+    for e in unary_catalogue() {
+        jobs.push(Box::new(move || {
+            let mut st = Stats::default();
+            let sink = Sink::new();
+            static_grid(e.kind, &mut st, &sink);
+            JobOut { stats: st, viols: sink.take(), samples: vec![json!({"explorer":"TREE+LONG","clause":"statically typed outer over ten inner views","outer":format!("{:?}", e.kind)})] }
+        }));
+    }
     // binary combinators over every ordered pair
     let pool = inners(2);
     for k in BINARY {
